@@ -12,9 +12,14 @@
 (*   params  for every declared parameter: given or not (plus possibly     *)
 (*           undeclared extras, duplicates, any order) -- abstracted to    *)
 (*           "none" | "some" | "all", and extras TRUE/FALSE                *)
+(*   pvals   the values of the given parameters: "drawn" (valid, non-zero  *)
+(*           mostly) or "zero" (an explicit 0 is a value like any other:   *)
+(*           it is used, and the parameter is NOT reported as defaulted)   *)
 (*   inputs  "none" | "some" (a proper, non-empty subset, equal lengths)   *)
 (*           | "all" (equal lengths) | "unequal" (two given series differ  *)
-(*           in length)                                                    *)
+(*           in length) | "emptyone" (all given, one series is [] beside   *)
+(*           non-empty ones: unequal lengths) | "emptyall" (all given, all *)
+(*           of length 0: a run of zero timesteps)                         *)
 (* The response is always exactly ONE JSON document:                       *)
 (*   "problem": Log describes the problem, RunResults are null             *)
 (*   "result" : Log has one entry per defaulted parameter (naming it and   *)
@@ -48,11 +53,14 @@ VARIABLES req, emitted
 vars == <<req, emitted>>
 
 Requests == [form : {"malformed", "wellformed"}, name : {"missing", "unknown", "known"}, tables : BOOLEAN,
-             params : {"none", "some", "all"}, extras : BOOLEAN, inputs : {"none", "some", "all", "unequal"}]
+             params : {"none", "some", "all"}, pvals : {"drawn", "zero"}, extras : BOOLEAN,
+             inputs : {"none", "some", "all", "unequal", "emptyone", "emptyall"}]
 
 \* classes that make sense: a malformed document has no further structure; tables only for known models
 Sensible(r) == /\ (r.form = "malformed" => r.name = "missing" /\ ~r.tables /\ r.params = "none" /\ ~r.extras /\ r.inputs = "none")
                /\ (r.name # "known" => ~r.tables)
+               /\ (r.pvals = "zero" => r.params # "none" /\ r.name = "known" /\ ~r.tables /\ r.inputs \in {"some", "all"})
+               /\ (r.inputs \in {"emptyone", "emptyall"} => r.name = "known" /\ ~r.tables /\ r.params = "all" /\ ~r.extras)
 
 Response(r) ==
     IF r.form = "malformed" THEN [kind |-> "problem", why |-> "not a valid request document"]
@@ -62,7 +70,10 @@ Response(r) ==
     \* implementation can run the model after all, a result -- but exactly one document and no crash
     ELSE IF r.tables THEN [kind |-> "either", why |-> "table parameters cannot be supplied"]
     ELSE IF r.inputs = "none" THEN [kind |-> "problem", why |-> "no input series: length of the run unknown"]
-    ELSE IF r.inputs = "unequal" THEN [kind |-> "problem", why |-> "input series of unequal length"]
+    ELSE IF r.inputs \in {"unequal", "emptyone"} THEN [kind |-> "problem", why |-> "input series of unequal length"]
+    \* a run of zero timesteps: results (empty series, initial states) -- or a problem document for a model
+    \* that cannot run without a first timestep; exactly one document and no crash either way
+    ELSE IF r.inputs = "emptyall" THEN [kind |-> "either", why |-> "zero timesteps"]
     ELSE [kind |-> "result",
           logDefaults |-> (r.params # "all"),          \* every missing parameter is reported with its default
           logZeroInputs |-> (r.inputs = "some")]       \* every missing input is reported
@@ -71,7 +82,7 @@ Init == req \in {r \in Requests : Sensible(r)} /\ emitted = FALSE
 Emit == /\ ~emitted /\ emitted' = TRUE /\ req' = req
         /\ PrintT(ToJson([jsonclass |-> req, response |-> Response(req)]))
         \* the nesting cases are emitted once, together with the first class
-        /\ (req = [form |-> "malformed", name |-> "missing", tables |-> FALSE, params |-> "none", extras |-> FALSE, inputs |-> "none"] =>
+        /\ (req = [form |-> "malformed", name |-> "missing", tables |-> FALSE, params |-> "none", pvals |-> "drawn", extras |-> FALSE, inputs |-> "none"] =>
               \A c \in NestCases :
                  LET cells == [k \in 1..Prod(c[1]) |-> Code(k - 1)] IN
                  PrintT(ToJson([jsonnest |-> [shape |-> c[1], shift |-> c[2], cells |-> cells, expect |-> JsonSafe(cells, c[1], c[2])]])))
